@@ -506,6 +506,27 @@ FWD_SINKS = ("AsyncWriteExt::write_all", "Stream::send_data", "Session::write_da
 FWD_SOURCES = ("AsyncReadExt::read", "StreamReader::read")
 
 
+COPY_WRAPPERS = (">::from", ">::into", "::to_vec", "::to_owned", "::clone", "Bytes::copy_from_slice", "Bytes::from", "From>::from", "Into>::into", "::as_ref", "::deref", "::borrow", "BytesMut::from", "::freeze", "Vec::from")
+
+
+def exactly_what_was_read(data, rbuf, read_bb):
+    """the term `data` is `rbuf[..n]` with n the count returned by the read in block read_bb — itself, or a plain copy of it
+    (to_vec / Bytes::copy_from_slice / ...): nothing selected by content, nothing joined from two alternatives"""
+    t = data
+    for _ in range(6):
+        if is_call_term(t, *COPY_WRAPPERS) and t[3]:
+            t = t[3][0]
+        else:
+            break
+    if not (is_call_term(t, "::index") and len(t[3]) == 2 and isinstance(t[3][1], tuple) and t[3][1][0] == "agg" and t[3][1][3]):
+        return False
+    rng = t[3][1]
+    if "RangeTo" not in rng[1] or "Inclusive" in rng[1]:
+        return False
+    cnt = rng[3][0]
+    return strip_bb(t[3][0]) == strip_bb(rbuf) and isinstance(cnt, tuple) and cnt[0] == "call" and cnt[2] == read_bb
+
+
 def r10_forwarding_slices(ctx):
     """every relay loop forwards exactly what this iteration read: the sink gets buf[..n] (or a copy of it) with buf the buffer
     this iteration's read filled and n the count that read returned"""
@@ -529,15 +550,8 @@ def r10_forwarding_slices(ctx):
                 n += 1
                 data = o.of_operand(s.args[-1])
                 # find index(buf, RangeTo{n}) inside the data term
-                ok = False
                 det = fmt(data)[:90]
-                for t in subterms(data):
-                    if is_call_term(t, "::index") and len(t[3]) == 2 and isinstance(t[3][1], tuple) and t[3][1][0] == "agg" and "RangeTo" in t[3][1][1] and t[3][1][3]:
-                        same_buf = strip_bb(t[3][0]) == strip_bb(rbuf)
-                        cnt = t[3][1][3][0]
-                        same_n = isinstance(cnt, tuple) and cnt[0] == "call" and cnt[2] == r.bb
-                        no_from = "RangeTo" in t[3][1][1] and "Inclusive" not in t[3][1][1]
-                        ok = same_buf and same_n and no_from
+                ok = exactly_what_was_read(data, rbuf, r.bb)
                 owner = ctx.P.owner(key)
                 ctx.ob("R01.10", "%s|relay:%s<-%s#%d" % (owner, s.norm.split("::")[-1], r.norm.split("::")[-1], n), ok, s.site,
                        "forwards buf[..n] of this iteration's read" if ok else
